@@ -16,29 +16,47 @@ A model / implementation difference that breaks none of these is a broken tie (`
 import asyncio
 import inspect
 
+import c14_conn as CN
 import c14_fuzz as F
 import secsm
 from common import hx
 
 ID = "C14"
-GENS = ["c13_chain", "c14_handlers"]
+GENS = ["c13_chain", "c14_handlers", "c14_partial"]
 PROOF = "Gallia.Proofs.C14"
 DRIVER = "c14"
 ORACLE = False
 ASSUMPTIONS = [
     "\"does not raise\" is a statement about Python exceptions: the Lean model only has the three exceptions the rule "
     "chain can raise (two asserts, one index error) as outcomes; every other exception is excluded by the tie (any "
-    "exception out of handle_request on a generated history is a violation), not by a theorem",
+    "exception out of handle_request on a generated history is a violation), not by a theorem. The connection loop "
+    "around it (handle_client: readline, decode, unhexlify, handle_request, write, the except arm, the two breaks, the "
+    "division after the loop) is modelled with its exceptions (Model/VEcuConn.lean) and what ends it is proved exactly "
+    "(conn_end_exact)",
+    "connection level: the StreamReader limit of the connection is a parameter of the model (a longer line ends the loop "
+    "with ValueError: EndCause.tooLong); the exchange theorems assume asyncio's default 2**16 and requests of at most "
+    "32768 bytes; the tie builds the server's reader with the limit run() passes to asyncio.start_server, gives the same "
+    "limit to the model, sends requests up to 4095 bytes (the longest one ISO-TP transfer carries) and lines of exactly "
+    "limit and limit + 2 bytes; "
+    "writer.write / drain do not raise while the peer is connected (a reset by the peer is the fourth "
+    "way the loop can end and is outside the property); what the runtime does with the socket after handle_client "
+    "returned or raised is not modelled (the client then just sees no further line); the client is "
+    "LinesTransportMixin.write / read + helpers.parse_pdu, which is UDSClient.request_unsafe with max_retry 0 for an ECU "
+    "that never answers busyRepeatRequest / responsePending (the vECU has neither code: handler_negatives_accepted and "
+    "the chain's NRCs); the client's read decodes UTF-8 where the model takes ASCII - equal on everything hexlify emits",
     "the random decisions of a handler call enter the model as a per-request oracle (random_bool results, randint(0,255) "
     "bytes, int(expovariate + 0.5) lengths, DTC draws); the theorems hold for every oracle, the tie records the real draws",
     "request parsing is C01's parser model (decode), response parsing C02's (decodeResp), the client's acceptance test "
     "C03's (parsePdu); their agreement with gallia's codec is the subject of C01-C03 and is re-checked here on every "
     "compared exchange through the outputs (raw bit, reply bytes, client verdict)",
-    "empty requests are outside the property (request.service_id raises IndexError on b'')",
+    "empty requests are outside the property (request.service_id raises IndexError on b''); as events of a connection "
+    "they are modelled: an empty or all-whitespace line ends the loop with IndexError, like a non-hex / odd-length / "
+    "non-ASCII line ends it with binascii.Error / UnicodeDecodeError (conn_end_exact; compared with the real loop)",
     "session identifiers < 128 (ModelOK, proved for every model randomize() can build): to_bytes(session, 1) and the "
     "sub-function byte of the DiagnosticSessionControl reply cannot overflow",
-    "one connection, requests handled one after the other (handle_client awaits each request); asyncio.StreamReader / "
-    "StreamWriter by contract",
+    "one connection, requests handled one after the other (handle_client awaits each request; the client sends the next "
+    "request only after its read returned or timed out); asyncio.StreamReader / StreamWriter by contract (readline "
+    "returns through the first newline; an unterminated tail only at end of stream)",
     "reply_length_bounds assumes random_payload length <= 4090 and DTC count <= 1023 for the handler call; the code draws "
     "both from expovariate (53-bit random(): at most ~294 for the payload, ~1837 for the DTC count), so a reply longer than "
     "4095 bytes needs a DTC-count draw above 1023 (probability ~1e-9 per call) - not excluded by the code, not a clause of "
@@ -571,6 +589,206 @@ class Runner:
 
 
 # ------------------------------------------------------------------------------------------------------------------
+# -- 6. whole connections -------------------------------------------------------------------------------------------------
+HEX_DIGITS = set(b"0123456789abcdefABCDEF")  # what the client's unhexlify takes; the model (and the tie) say lower case
+
+
+def odd_lines(rng, real):
+    """raw lines a client of the line protocol would not write: tolerated variants of a valid request and the kinds
+    that end the loop"""
+    good = rng.choice(["3e00", "1001", "22f186", "3e80", "2701", rbytes(rng, 1, 6).hex()])
+    return rng.choice([
+        good.upper().encode(), good.encode() + b"\r", b"  " + good.encode() + b"\t ", b"\x1c" + good.encode() + b"\x1f",
+        b"", b" ", b"\r", b"\x0b\x0c", good.encode()[:-1], good.encode() + b"0", b"zz", good.encode() + b"g",
+        good[:2].encode() + b" " + good[2:].encode(), b"\xff" + good.encode(), good.encode() + b"\xc2\xa0", b"0x" + good.encode(),
+    ])
+
+
+def conn_script(rng, real, makers, names, n, mixed):
+    items, state = [], INIT
+    while len(items) < n:
+        new, _ = random_items(rng, real, makers, names, state)
+        for it in new:
+            it["dur"] = rng.choice([0] * 12 + [1, 2, 3, 38, 41])
+        items += new
+        if mixed and rng.random() < 0.06:
+            items.append({"adv": adv_of(rng), "dur": rng.choice([0, 1]), "line": odd_lines(rng, real).hex()})
+    return items
+
+
+def conn_clauses(o, requests_only):
+    """the property's own clauses on one exchange of a connection, judged on the real run alone"""
+    out = []
+    if "line" in o["item"]:
+        return out
+    nonempty = o["pdu"] is not None and len(o["pdu"]) > 0
+    if not nonempty or not requests_only:
+        return out
+    if not o["alive"]:
+        out.append(("dropped-connection", o["end"]))
+        return out
+    if not o["session_ok"]:
+        out.append(("left-sessions", "session-not-offered"))
+    w = o["written"]
+    if w:
+        if not (w.endswith(b"\n") and w.count(b"\n") == 1 and set(w[:-1]) <= HEX_DIGITS and len(w) % 2 == 1 and len(w) > 1):
+            out.append(("reply-line-malformed", "line"))
+        elif o["verdict"] != "accepted":
+            out.append(("client-refuses", o["verdict"]))
+        elif o["resp_pdu"] is not None and o["resp_pdu"] != bytes.fromhex(w[:-1].decode()):
+            out.append(("client-got-other-bytes", "bytes"))
+    elif o["verdict"] != "timeout":
+        out.append(("answer-from-nowhere", o["verdict"]))
+    if o["rbuf"] or o["sbuf"]:
+        out.append(("stale-bytes-left", "rbuf" if o["rbuf"] else "sbuf"))
+    return out
+
+
+def conn_compare(ctx, real, script):
+    """-> (index of the first event where something is wrong | None, signature, spec_violated, impl, model, obs, end)"""
+    obs, end = CN.drive(real, script)
+    out = ctx.lean(CN.lean_lines(real, obs, end.get("limit", 65536)))
+    requests_only = all("line" not in it for it in script)
+    for i, (o, mo) in enumerate(zip(obs, out[2:])):
+        broken = conn_clauses(o, requests_only)
+        if broken:
+            return i, ("clause", broken[0][0], broken[0][1]), True, o["impl"], CN.model_view(o, mo), obs, end
+        if o["orc_problems"]:
+            return i, ("draws", "unmodelled"), False, "; ".join(o["orc_problems"]), "-", obs, end
+        mv = CN.model_view(o, mo)
+        if mv != o["impl"]:
+            return i, ("differs", diff_field(o["impl"], mv)), False, o["impl"], mv, obs, end
+    mend = " ".join(p for p in out[-1].split(" ") if not p.startswith("served="))
+    if requests_only and obs and end["epilogue"] != "ok" and all(o["alive"] for o in obs):
+        return len(obs), ("clause", "epilogue-raises", end["epilogue"]), True, end["impl"], mend, obs, end
+    if mend != end["impl"]:
+        return len(obs), ("differs", "end:" + diff_field(end["impl"], mend)), False, end["impl"], mend, obs, end
+    return None, None, False, "", "", obs, end
+
+
+def diff_field(a, b):
+    fa, fb = a.split(" "), b.split(" ")
+    for x, y in zip(fa, fb):
+        if x != y:
+            return x.split("=")[0]
+    return "length"
+
+
+def conn_minimise(ctx, real, script, idx, sig, budget=40):
+    script = script[: idx + 1]
+    i = len(script) - 2
+    while i >= 0 and budget > 0:
+        cand = script[:i] + script[i + 1:]
+        budget -= 1
+        try:
+            j, s2, *_ = conn_compare(ctx, real, cand)
+        except Exception:  # noqa: BLE001
+            j, s2 = None, None
+        if j is not None and s2 == sig:
+            script = cand[: j + 1] if j < len(cand) else cand
+        i -= 1
+        i = min(i, len(script) - 2)
+    return script
+
+
+def conn_label(script, idx):
+    it = script[min(idx, len(script) - 1)] if script else {}
+    if "line" in it:
+        return "line:" + it["line"][:16]
+    if "key" in it:
+        return "key:" + ":".join(str(x) for x in it["key"])
+    return "pdu:" + it.get("pdu", "")[:16]
+
+
+def run_connections(ctx, rn, reals, names):
+    rng = ctx.rng
+    n_models = ctx.pick(5, 16)
+    for real in reals[:n_models]:
+        makers = ctor_makers(rng, real)
+        plans = [(ctx.pick(40, 100), False)] * ctx.pick(2, 4) + [(ctx.pick(25, 50), True)] * ctx.pick(6, 12)
+        plans += [(0, False), (1, False)]
+        # directed: connections whose every reply is suppressed (TesterPresent, a session change, a reset with the suppress bit)
+        sup = [{"adv": 1, "dur": 0, "pdu": "3e80"}]
+        for sess in list(real.server.services.get(1, {}).get(0x10) or [])[:2]:
+            sup.append({"adv": 1, "dur": 1, "pdu": bytes([0x10, 0x80 | int(sess)]).hex()})
+        for rt in list(real.server.services.get(1, {}).get(0x11) or [])[:1]:
+            sup.append({"adv": 1, "dur": 0, "pdu": bytes([0x11, 0x80 | int(rt)]).hex()})
+        plans += [("script", [dict(x)]) for x in sup] + [("script", [dict(x) for x in sup]), ("script", [dict(sup[0]), {"adv": 1, "dur": 0, "pdu": "3e00"}])]
+        # directed: requests as long as one ISO-TP transfer allows (4095 bytes), on a connection whose reader is built with the
+        # limit run() passes to start_server
+        for n_bytes in (2049, rng.randrange(2050, 4095), 4095):
+            head = rng.choice([bytes([0x2E, 0xF1, 0x90]), bytes([0x31, 0x01, 0x12, 0x34]), bytes([0x36, 0x01]), rbytes(rng, 1, 3)])
+            plans.append(("script", [{"adv": 1, "dur": 0, "pdu": (head + rng.randbytes(n_bytes - len(head))).hex()},
+                                     {"adv": 1, "dur": 0, "pdu": "3e00"}]))
+        if real in reals[:2]:  # the reader limit from both sides: a line of exactly `limit` bytes is served, one more ends the loop
+            plans.append(("script", [{"adv": 1, "dur": 0, "line": (b"3e" + b"00" * 32767).hex()}, {"adv": 1, "dur": 0, "line": b"3e00".hex()}]))
+            plans.append(("script", [{"adv": 1, "dur": 0, "pdu": "3e00"}, {"adv": 1, "dur": 0, "line": (b"3e" + b"00" * 32768).hex()}]))
+        for n, mixed in plans:
+            if n == "script":
+                script = mixed
+            else:
+                script = conn_script(rng, real, makers, names, n, mixed)
+                if n == 0 and rng.random() < 0.5:
+                    script = [{"adv": 1, "dur": 0, "line": odd_lines(rng, real).hex()}]
+            try:
+                idx, sig, spec, impl, model, obs, end = conn_compare(ctx, real, script)
+            except Exception as e:  # noqa: BLE001
+                ctx.disagree(f"c14:conn:harness-raised:{type(e).__name__}", f"driving a whole connection raised {e!r}",
+                             {"kind": "conn", **rn.case_of(real, [])}, spec_violated=False, site="harness/c14_conn.py")
+                continue
+            ctx.ev(len(obs) + 1)
+            ctx.traces_validated += 1
+            for o in obs:
+                ctx.kind("conn:" + ("line" if "line" in o["item"] else "request") + ":" + (o["verdict"] if o["alive"] else "ended-" + o["end"]))
+                ctx.nontrivial(("conn", real.seed, o["op"], o["state"], o["start"], o["orc"]))
+            ctx.kind("conn:end:" + end["impl"].replace("alive=0 ", ""))
+            if idx is None:
+                continue
+            mini = conn_minimise(ctx, real, script, idx, sig)
+            try:
+                idx2, sig2, spec2, impl2, model2, obs2, _end2 = conn_compare(ctx, real, mini)
+            except Exception:  # noqa: BLE001
+                idx2 = None
+            if idx2 is None or sig2 != sig:
+                mini, idx2, impl2, model2 = script[: idx + 1], idx, impl, model
+            key = "c14:conn:" + ":".join(str(x) for x in sig) + ":" + conn_label(mini, idx2)
+            case = {"kind": "conn", "seed": real.seed, "params": params_json(real.params), "model": real.spec[:2000], "script": mini}
+            if spec:
+                what = (f"whole connection to the virtual ECU (seed {real.seed}), {len(mini)} event(s), the last one {conn_label(mini, idx2)}: "
+                        f"{sig[1]} ({sig[2]}) - the property's clause fails on TCPUDSServerTransport.handle_client with the real client")
+            else:
+                what = (f"whole connection to the virtual ECU (seed {real.seed}): handle_client / the client and Model/VEcuConn.lean differ "
+                        f"in {sig[1]} at event {idx2} ({conn_label(mini, idx2)})")
+            ctx.disagree(key, what[:900], case, impl=impl2, model=model2, spec_violated=spec,
+                         site="TCPUDSServerTransport.handle_client + LinesTransportMixin + UDSClient.request_unsafe vs Model/VEcuConn.lean")
+    ctx.exhaustive_parts.append("whole connections (real handle_client, real TCPLinesTransport + UDSClient.request_unsafe on the other end, "
+                                "virtual time): per exchange the line written, the client's verdict, session / security state, "
+                                "last_time_active, loop alive, both stream buffers; at the end the peer closes (epilogue observed); "
+                                "16 kinds of foreign lines (case, surrounding whitespace, empty, odd length, non-hex, non-ASCII); connections "
+                                "of suppressed requests only; requests of 2049..4095 bytes on a reader with the limit run() passes to "
+                                "asyncio.start_server (run() is called with start_server replaced by a recorder)")
+
+
+def replay_conn(ctx, c):
+    env = F.make_env(0)
+    real = F.Real(env, c["seed"], params_from_json(env, c.get("params", {})))
+    script = c.get("script", [])
+    idx, sig, spec, impl, model, obs, end = conn_compare(ctx, real, script)
+    out = ctx.lean(CN.lean_lines(real, obs, end.get("limit", 65536)))
+    for i, (o, mo) in enumerate(zip(obs, out[2:])):
+        print(f"event {i}: {o['op']} start={o['start']} stop={o['stop']} oracle [{o['orc'][:80]}]")
+        print(f"   implementation: {o['impl'][:300]}")
+        print(f"   model         : {CN.model_view(o, mo)[:300]}")
+        if i == idx:
+            print(f"   {'VIOLATES ' + sig[1] if spec else 'DIFFERS'} {sig}")
+    print("peer closes   :", end["impl"])
+    print("model         :", out[-1])
+    if idx is not None and idx >= len(obs):
+        print(f"   {'VIOLATES ' + sig[1] if spec else 'DIFFERS'} {sig}")
+    print("DISAGREE" if idx is not None else "agree")
+    return idx is not None
+
+
 def run(ctx):
     # the session / security state machine over whole histories, exhaustively over a small alphabet of request kinds, with
     # both clock reads of handle_request (harness/secsm.py); first, because it installs its own clock and the main part
@@ -617,6 +835,9 @@ def _run(ctx, env, rn):
                      "gallia has request classes the structured generator does not build: " + ", ".join(sorted(set(names) - covered)),
                      {"classes": sorted(set(names) - covered)}, spec_violated=False, site="harness/props/C14.py ctor_makers")
     names = sorted(covered & set(names))
+
+    # 0. whole connections with the real client on the other end against Model/VEcuConn.lean (first: independent of the parts below)
+    run_connections(ctx, rn, reals, names)
 
     # 1. random histories up to N requests (mixed: random bytes, sid + payload, session changes, seed/key dialogues,
     #    known services, constructor requests; idle gaps around the 10 s inactivity limit)
@@ -796,6 +1017,8 @@ def replay(ctx, case):
     c = case.get("case", case)
     if c.get("kind") == "history":
         return secsm.replay(ctx, c, "c14")
+    if c.get("kind") == "conn":
+        return replay_conn(ctx, c)
     env = F.make_env(0)
     real = F.Real(env, c["seed"], params_from_json(env, c.get("params", {})))
     items = c.get("history", [])
@@ -848,16 +1071,37 @@ MANIFEST = {
                    "the real RandomUDSServer behind UDSServerTransport.handle_request / TCPUDSServerTransport.handle_client "
                    "with recorded RNG draws and the real helpers.parse_pdu on every reply, incl. all request sequences over 10 / 12 "
                    "request kinds of the security state machine up to length 5 / 3 (6 / 5 thorough) with scripted start / end "
-                   "clock reads, compared state by state and reply by reply (harness/secsm.py)."),
+                   "clock reads, compared state by state and reply by reply (harness/secsm.py). "
+                   "Whole connections (Model/VEcuConn.lean): TCPUDSServerTransport.handle_client - readline, ASCII decode + strip, "
+                   "unhexlify, handle_request, reply line or nothing, the except arm, both breaks, the division after the loop - "
+                   "composed with the vECU model on one side and C19's line layer + parsePdu on the other. For every ModelOK model "
+                   "(every model randomize() builds), every oracle, every event history: the loop has ended iff the history contains "
+                   "end of stream, a line longer than the reader's limit, a line that is not even-length ASCII hex, or an empty "
+                   "request, and the recorded cause is that of "
+                   "the first such event (conn_end_exact) - so after any history of non-empty requests it is still serving, has "
+                   "counted every one of them and the session is offered (conn_never_ends, conn_served_all); what it writes per "
+                   "request is nothing or exactly hexlify(reply) + newline - lower-case hex, no inner newline - which the client's "
+                   "read() decodes back to the reply bytes leaving exactly what followed (conn_reply_line_wellformed); one "
+                   "client.request between quiet points returns the decoded reply of that very request, accepted for every request "
+                   "object with those bytes, or times out having consumed nothing because that very reply was suppressed, and "
+                   "leaves both streams empty (conn_exchange_accepted); hence after any history - in particular after a suppressed "
+                   "reply - nothing is left that a later request could take for its answer (conn_history_quiet, "
+                   "conn_no_stale_after_suppress); the exchange view and the event view are the same loop "
+                   "(conn_exchanges_are_events). Tied by whole connections against the real handle_client with the real "
+                   "TCPLinesTransport + UDSClient.request_unsafe on the other end under virtual time: per exchange the bytes "
+                   "written, the client's verdict and returned PDU, session / security state, last_time_active, loop alive, both "
+                   "stream buffers; foreign lines of 16 kinds; the peer's close and the loop's epilogue."),
     "level_note": ("Partial: \"neither raises nor drops the connection\" is a statement about Python exceptions; the model has "
-                   "only the chain's own three exception sites as outcomes (proved unreachable), every other exception is "
+                   "the chain's own three exception sites (proved unreachable) and the connection loop's exceptions (decode, unhexlify, "
+                   "whatever handle_request raises, the division after the loop; what ends the loop is proved exactly) as outcomes; "
+                   "every other exception inside a handler or a response's pdu property is "
                    "excluded by the correspondence run only (random histories up to N = 200, all one- and two-byte requests, "
                    "all sub-function bytes, every request class, seed/key dialogues, every session, boundary lengths, "
                    "handle_client on in-memory streams). Trusted: Lean kernel (propext, Quot.sound, Classical.choice), the "
-                   "translators gen/c13_chain.py and gen/c14_handlers.py, the harness incl. its RNG recorder. Modelled rather "
+                   "translators gen/c13_chain.py and gen/c14_handlers.py, the harness incl. its RNG recorder and in-memory stream pair. Modelled rather "
                    "than verified: all Python code; request parsing, response parsing and the client's matcher are the C01 / "
                    "C02 / C03 models (tied to gallia by those properties and re-checked here through the outputs); the "
                    "random number generator is an oracle; asyncio streams by contract; one connection at a time."),
-    "technique": "Lean 4 proof (composition of the C13 chain, C01/C02 codecs and C03 matcher models; case analysis over request kinds; induction over histories; refinement of C16's randomize model to the hypotheses) + regenerated tables + differential correspondence with recorded randomness against the real virtual ECU and the real client-side acceptance test",
+    "technique": "Lean 4 proof (composition of the C13 chain, C01/C02 codecs and C03 matcher models; case analysis over request kinds; induction over histories and over connection event sequences; invariant of the composed client / loop / vECU system; refinement of C16's randomize model to the hypotheses) + regenerated tables + differential correspondence with recorded randomness against the real virtual ECU and the real client-side acceptance test",
     "design_ref": "DESIGN.md section 7, C14",
 }
